@@ -12,7 +12,10 @@ EXPLANATION = (
     'of the atmosphere loop = {space, tab, LF, CR}; delimiter set of test_delimiter = whitespace + ( ) " ; |; '
     'comment terminators; digit / sign dispatch; (escapes) the string escape table against R7RS 6.7; (position) '
     'Lexer::advance bookkeeping LF => line+1, column=1, other => column+1, and every token is located from it; '
-    "(quote) the symbol built for 'x is the keyword routed to transform_quote.")
+    "(quote) the symbol built for 'x is the keyword routed to transform_quote. (token-classes) tokens generated "
+    'from the productions of R7RS 7.1.1 — ordinary and peculiar identifiers with every kind of <subsequent>, '
+    'signed integers, ratios, decimals with exponent — are read as the class and value the grammar assigns (two '
+    'forms the lexer rejects, `.5` and `+.a`, are recorded as outside its supported grammar).')
 NOT_DECIDED = ("the datum denoted by each token (numeric conversion, string contents) and list/vector construction for "
                "all nestings; tokens outside the supported grammar.")
 
